@@ -76,3 +76,34 @@ pub fn vp_extend_map<'b, T, U, F: FnMut(T) -> U>(dst: &mut Vec<U>, src: alloc::v
 pub proof fn axiom_vec_len_bound<T>(v: &Vec<T>)
     ensures v@.len() < usize::MAX,
 {}
+
+// ---- std::collections::HashSet of string keys (import.rs), slice helpers ----
+pub trait VpKey { spec fn key(&self) -> Seq<char>; }
+impl<'b> VpKey for &'b str { open spec fn key(&self) -> Seq<char> { self@ } }
+#[verifier::external_body]
+#[verifier::reject_recursive_types(T)]
+pub struct HashSet<T> { _p: core::marker::PhantomData<T> }
+impl<T: VpKey> HashSet<T> {
+    pub uninterp spec fn view(&self) -> Set<Seq<char>>;
+    #[verifier::external_body]
+    pub fn new() -> (r: Self) ensures r@ == Set::<Seq<char>>::empty() { unimplemented!() }
+    /// only `insert` exists on purpose: the set is never iterated (C17: hash order cannot leak)
+    #[verifier::external_body]
+    pub fn insert(&mut self, k: T) -> (r: bool)
+        ensures r == !old(self)@.contains(k.key()), final(self)@ == old(self)@.insert(k.key()),
+    { unimplemented!() }
+}
+/// rule R9: `v.iter().all(f)` on a vector
+#[verifier::external_body]
+pub fn vp_vec_all<T, F: FnMut(&T) -> bool>(v: &Vec<T>, f: F) -> (r: bool)
+    requires forall|x: &T| f.requires((x,)),
+    ensures
+        r ==> (forall|k: int| 0 <= k < v@.len() ==> f.ensures((&#[trigger] v@[k],), true)),
+        !r ==> (exists|k: int| 0 <= k < v@.len() && f.ensures((&#[trigger] v@[k],), false)),
+{ unimplemented!() }
+/// rule R9: `v.sort_by_key(f)`: a (stable) permutation ordered by the key
+#[verifier::external_body]
+pub fn vp_sort_by_key<T, K, F: FnMut(&T) -> K>(v: &mut Vec<T>, f: F)
+    requires forall|x: &T| f.requires((x,)),
+    ensures final(v)@.to_multiset() == old(v)@.to_multiset(), final(v)@.len() == old(v)@.len(),
+{ unimplemented!() }
